@@ -209,19 +209,19 @@ spec fn tight(n: RTreeNode) -> bool {
 //@extract fn bigtools/src/bbi/bbiwrite.rs get_rtreeindex
 //@rule R16
 //@presub /\A.*?\n[ \t]*\.map\(\|c\| (match &c \{.*?\n[ \t]*\})\)\s*\.collect\(\),?\s*\)\s*\}\)\s*\.collect\(\)\s*\};.*\Z/ => fn node_of_child(c: RTreeChildren) -> RTreeNode {\n    \1\n} min=1 count=1
-//@sub /(\w+)\.iter\(\)\s*\.map\(\|s\| \(s\.chrom, s\.end\)\)\s*\.max\(\)/ => max_end_of_sections(\1) min=0
+//@sub /(\w+)\s*\.iter\(\)\s*\.map\(\|s\| \(s\.chrom, s\.end\)\)\s*\.max\(\)/ => max_end_of_sections(\1) min=0
 //@sub /(\w+)\s*\.iter\(\)\s*\.map\(\|n\| \(n\.end_chrom_idx, n\.end_base\)\)\s*\.max\(\)/ => max_end_of_children(\1) min=0
-//@sub /(\w+)\.iter\(\)\s*\.map\(\|s\| \(s\.chrom, s\.end\)\)\s*\.min\(\)/ => min_end_of_sections(\1) min=0
+//@sub /(\w+)\s*\.iter\(\)\s*\.map\(\|s\| \(s\.chrom, s\.end\)\)\s*\.min\(\)/ => min_end_of_sections(\1) min=0
 //@sub /(\w+)\s*\.iter\(\)\s*\.map\(\|n\| \(n\.end_chrom_idx, n\.end_base\)\)\s*\.min\(\)/ => min_end_of_children(\1) min=0
-//@sub /(\w+)\.iter\(\)\s*\.map\(\|s\| \(s\.chrom, s\.end\)\)\s*\.last\(\)/ => last_end_of_sections(\1) min=0
+//@sub /(\w+)\s*\.iter\(\)\s*\.map\(\|s\| \(s\.chrom, s\.end\)\)\s*\.last\(\)/ => last_end_of_sections(\1) min=0
 //@sub /(\w+)\s*\.iter\(\)\s*\.map\(\|n\| \(n\.end_chrom_idx, n\.end_base\)\)\s*\.last\(\)/ => last_end_of_children(\1) min=0
 //@sub /\bsections\s*\.iter\(\)\s*\.max_by_key\(\|(\w+)\| \1\.end\)/ => max_by_key_sections_end(sections) min=0
 //@sub /\bchildren\s*\.iter\(\)\s*\.max_by_key\(\|(\w+)\| \1\.end_base\)/ => max_by_key_children_end_base(children) min=0
 //@sub /\bsections\s*\.iter\(\)\s*\.(?:max|min)_by_key\(\|(\w+)\| [^|;()]*\)/ => max_by_key_sections_other(sections) min=0
 //@sub /\bchildren\s*\.iter\(\)\s*\.(?:max|min)_by_key\(\|(\w+)\| [^|;()]*\)/ => max_by_key_children_other(children) min=0
 //@sub /(max_by_key_\w+\(\w+\))\s*\.map\(\|(\w+)\| (\([^()]*\))\)\s*\.unwrap\(\)/ => (match \1 { Some(\2) => \3, None => unwrap_none_pair() }) min=0
-//@sub /\bsections\s*\.iter\(\)\s*\.map\(\|\w+\| [^|;]*?\)\s*\.\w+\(\)/ => last_end_of_sections(sections) min=0
-//@sub /\bchildren\s*\.iter\(\)\s*\.map\(\|\w+\| [^|;]*?\)\s*\.\w+\(\)/ => last_end_of_children(children) min=0
+//@sub /\bsections\s*\.iter\(\)\s*\.map\(\|\w+\| [^|;]*?\)\s*\.\w+\(\)/ => unknown_adaptor_on_sections__refused(sections) min=0
+//@sub /\bchildren\s*\.iter\(\)\s*\.map\(\|\w+\| [^|;]*?\)\s*\.\w+\(\)/ => unknown_adaptor_on_children__refused(children) min=0
 //@sub /\bsections\.first\(\)/ => first_section(sections) min=0
 //@sub /\bchildren\.first\(\)/ => first_child(children) min=0
 //@sub /\bsections\.last\(\)/ => last_section(sections) min=0
